@@ -1,9 +1,9 @@
 package rules
 
 import (
+	"fmt"
 	"go/constant"
 	"go/token"
-	"fmt"
 	"go/types"
 	"strings"
 
